@@ -29,9 +29,9 @@ func (d Draft) String() string {
 }
 
 const (
-	URI2020   = "https://json-schema.org/draft/2020-12/schema"
-	URI07     = "http://json-schema.org/draft-07/schema#"
-	URI07Sec  = "https://json-schema.org/draft-07/schema#"
+	URI2020  = "https://json-schema.org/draft/2020-12/schema"
+	URI07    = "http://json-schema.org/draft-07/schema#"
+	URI07Sec = "https://json-schema.org/draft-07/schema#"
 )
 
 // subschema positions per draft (independent table, written from the two specifications)
@@ -334,7 +334,9 @@ func sortedKeys[V any](m map[string]V) []string {
 // ErrNothing is returned when a reference designates nothing.
 type ErrNothing struct{ Ref, Why string }
 
-func (e *ErrNothing) Error() string { return fmt.Sprintf("reference %q designates nothing: %s", e.Ref, e.Why) }
+func (e *ErrNothing) Error() string {
+	return fmt.Sprintf("reference %q designates nothing: %s", e.Ref, e.Why)
+}
 
 // Target resolves a $ref / $dynamicRef string lexically from node n. dynName is
 // the plain-name fragment when the target carries a matching $dynamicAnchor.
